@@ -49,6 +49,27 @@ impl InlineCache {
     }
   }
 
+  /// How many property slots does this cache hold
+  pub fn property_slots(&self) -> usize {
+    self.property.len()
+  }
+
+  /// How many invoke slots does this cache hold
+  pub fn invoke_slots(&self) -> usize {
+    self.invoke.len()
+  }
+
+  /// Grow this cache to hold at least the provided number of slots
+  /// keeping all existing entries
+  pub fn grow(&mut self, property_slots: usize, invoke_slots: usize) {
+    if property_slots > self.property.len() {
+      self.property.resize(property_slots, None);
+    }
+    if invoke_slots > self.invoke.len() {
+      self.invoke.resize(invoke_slots, None);
+    }
+  }
+
   /// Attempt to retrieve the property cache at a given slot
   /// for the provided class
   pub fn get_property_cache(&self, inline_slot: usize, class: ObjRef<Class>) -> Option<usize> {
@@ -160,6 +181,19 @@ pub struct CacheIdEmitter {
 }
 
 impl CacheIdEmitter {
+  /// Create an emitter that continues numbering after slots that
+  /// have already been handed out
+  pub fn starting_at(property: usize, invoke: usize) -> Self {
+    let mut emitter = Self::default();
+    for _ in 0..property {
+      emitter.property.emit();
+    }
+    for _ in 0..invoke {
+      emitter.invoke.emit();
+    }
+    emitter
+  }
+
   /// Emit a new property id
   pub fn emit_property(&mut self) -> u32 {
     if self.property_count() > u32::MAX as usize {
